@@ -17,13 +17,14 @@ import (
 // restart. Each property only changes weights and enabled fault kinds.
 type scLife struct {
 	baseScn
-	prop        string
-	restarts    int
-	maxRest     int
-	closeAt     int
-	badDone     bool
-	groups      []string // C14: one group name per member
-	endsInClose int
+	prop          string
+	restarts      int
+	maxRest       int
+	closeAt       int
+	badDone       bool
+	groups        []string // C14: one group name per member
+	endsInClose   int
+	transientEnds int
 }
 
 func init() {
@@ -363,6 +364,26 @@ func (s *scLife) Actions(w *World) []Action {
 				w.fault("mgmt:"+next, "")
 			}
 		}})
+	}
+	if s.prop == "C16" && s.transientEnds < 2 && w.ready1() {
+		// the server ends a stream with a re-openable status; the library reopens it and every gauge stays truthful
+		w.mu.Lock()
+		for _, st := range w.sortedStreams() {
+			st := st
+			m := w.members[st.conn.member-1]
+			if !st.open || m.closing || m.stopped || m.crashed || !m.ready {
+				continue
+			}
+			acts = append(acts, Action{ID: "end|too-slow|" + st.sid, W: 1, Do: func() {
+				s.transientEnds++
+				w.fault("end:too-slow", st.sid)
+				w.mu.Lock()
+				st.endStat = 4
+				w.cl.emitEnd(st)
+				w.mu.Unlock()
+			}})
+		}
+		w.mu.Unlock()
 	}
 	if s.prop == "C13" && w.cfg.Faults && s.endsInClose < 2 {
 		// a stream ends with a connection-type status while the shutdown is closing the streams
